@@ -424,10 +424,10 @@ func (f *Fixture) StubOff() {
 	f.stubOn = false
 }
 
-// takeStubSettled: the handler has returned, so every rendezvous send has been received by the
+// TakeStubSettled: the handler has returned, so every rendezvous send has been received by the
 // stub, but it may not have recorded it yet: stop the stub (it records before it can observe the
 // stop request), take, restart.
-func (f *Fixture) takeStubSettled() []string {
+func (f *Fixture) TakeStubSettled() []string {
 	was := f.stubOn
 	if was {
 		f.StubOff()
@@ -613,7 +613,7 @@ func (f *Fixture) Direct(seq ansi.Sequence, patience time.Duration) (outcome str
 	}
 	evs = f.DrainQueue()
 	// the stub goroutine appends after its receive completes; give it a moment if something is expected
-	snd = append(snd, f.takeStubSettled()...)
+	snd = append(snd, f.TakeStubSettled()...)
 	return
 }
 
